@@ -134,7 +134,9 @@ def explore_c07(ctx, res, replay_ops=None):
         res.evaluations += 1
         rsu, usu = int(t[9]), int(t[10])
         in_domain = rsu < 2 ** 63 and usu < 2 ** 63
-        act, ty = int(t[5]), int(t[3])
+        act, ty = int(t[5].rstrip("-")), int(t[3])
+        if t[5].endswith("-"):
+            res.dist["requested-action-absent"] += 1
         kind = {0: {1: "reserve", 2: "reserve", 3: "termination"}.get(ty, "debit-other"), 1: "refund",
                 2: "check-balance", 3: "price-enquiry"}.get(act, "other-action")
         res.dist[kind] += 1
@@ -154,7 +156,7 @@ def explore_c07(ctx, res, replay_ops=None):
                 panics += 1
                 res.violation("crash", "the account-balance server panicked on a request", _history(r.ops, i) + ["# impl: " + im])
             elif it:
-                judge_q.append("abmfjudge %s %s %s" % (before, " ".join(t[2:]), im))
+                judge_q.append("abmfjudge %s %s %s" % (before, " ".join(x.rstrip("-") if k == 3 else x for k, x in enumerate(t[2:])), im))
                 judge_idx.append(i)
         if it and it[0] in ("ans", "noanswer", "panic"):
             absorb(it[-1])
